@@ -1104,3 +1104,495 @@ def probe_c15(ctx, pf):
         if any(a.tobytes() != b.tobytes() for a, b in zip(tb, ta)):
             ctx.violation(f"c15:{cname}:solvePDE:terms", f"{cname}: solvePDE modified the terms it was given (they cannot be reused in a time loop)", L)
     return n
+
+
+# ------------------------------------------------------------------ C07
+def exact_solve(M, rhs):
+    """Gaussian elimination over the rationals of the (float) system the implementation assembled"""
+    from fractions import Fraction
+    A = [[Fraction(float(v)) for v in row] for row in M.toarray()]
+    b = [Fraction(float(v)) for v in rhs]
+    n = len(b)
+    for i in range(n):
+        p = next((r for r in range(i, n) if A[r][i] != 0), None)
+        if p is None:
+            return None
+        A[i], A[p] = A[p], A[i]; b[i], b[p] = b[p], b[i]
+        inv = 1 / A[i][i]
+        for r in range(i + 1, n):
+            if A[r][i] != 0:
+                f = A[r][i] * inv
+                rowi, rowr = A[i], A[r]
+                for k in range(i, n):
+                    if rowi[k] != 0:
+                        rowr[k] -= f * rowi[k]
+                b[r] -= f * b[i]
+    x = [Fraction(0)] * n
+    for i in reversed(range(n)):
+        s = b[i] - sum(A[i][k] * x[k] for k in range(i + 1, n) if A[i][k] != 0)
+        x[i] = s / A[i][i]
+    return x
+
+
+def divfree_velocity(rng, pf, mesh, cname, fs):
+    """one-directional flow along an axis with A(f)*u(f) constant along that axis (discretely divergence-free), or a discrete
+    stream function on Grid2D.  Returns (FaceVariable, flow axis or None)."""
+    d = len(mesh.dims)
+    dims = [int(k) for k in mesh.dims]
+    arrs = [np.zeros((dims[0] + 1,) + tuple(dims[1:])) if d >= 1 else None]
+    if d >= 2: arrs.append(np.zeros((dims[0], dims[1] + 1) + tuple(dims[2:])))
+    if d >= 3: arrs.append(np.zeros((dims[0], dims[1], dims[2] + 1)))
+    while len(arrs) < 3: arrs.append(np.array([]))
+    if cname == "Grid2D" and rng.random() < 0.5:
+        psi = np.zeros((dims[0] + 1, dims[1] + 1))
+        psi[1:-1, 1:-1] = [[rng.uniform(-1, 1) for _ in range(dims[1] - 1)] for _ in range(dims[0] - 1)] if dims[0] > 1 and dims[1] > 1 else 0
+        dxs, dys = np.diff(fs[0]), np.diff(fs[1])
+        arrs[0] = (psi[:, 1:] - psi[:, :-1]) / dys[None, :]
+        arrs[1] = -(psi[1:, :] - psi[:-1, :]) / dxs[:, None]
+        return pf.FaceVariable(mesh, *arrs), None
+    cands = [ax for ax in range(d) if not (gen.AXKIND[cname][ax] == "rad" and fs[0][0] == 0.0)]
+    if not cands:
+        return pf.FaceVariable(mesh, *arrs), None
+    ax = rng.choice(cands)
+    rf = np.asarray(fs[0], dtype=float)
+    tshape = [dims[i] for i in range(d) if i != ax]
+    q = np.array([rng.uniform(-2, 2) for _ in range(int(np.prod(tshape)) if tshape else 1)]).reshape(tshape if tshape else (1,))
+    if rng.random() < 0.5:
+        q = np.abs(q) * rng.choice([-1.0, 1.0])
+    if gen.AXKIND[cname][ax] == "rad":
+        A = rf if cname.startswith("Cyl") or cname.startswith("Polar") else rf ** 2
+    elif cname == "SphericalGrid3D" and ax == 1:
+        A = np.sin(np.asarray(fs[1], dtype=float))
+        A = np.where(np.abs(A) < 1e-12, np.nan, A)
+    else:
+        A = np.ones(dims[ax] + 1)
+    sh = [1] * d; sh[ax] = -1
+    qfull = np.expand_dims(q, ax) if tshape else q.reshape([1] * d)
+    arrs[ax] = qfull / A.reshape(sh) * np.ones(arrs[ax].shape)
+    if not np.all(np.isfinite(arrs[ax])):
+        arrs[ax] = np.zeros(arrs[ax].shape); ax = None
+    return pf.FaceVariable(mesh, *arrs), ax
+
+
+def probe_c07(ctx, pf):
+    from scipy.sparse.linalg import spsolve
+    n = 0
+    for rng, cname, fs, mesh in cases(ctx, pf, "c07", reps_q=6, reps_t=40, nmin=2, nmax_q=4, nmax_t=6):
+        d = len(mesh.dims)
+        u, flow_ax = divfree_velocity(rng, pf, mesh, cname, fs)
+        divu = pf.divergenceTerm(u)
+        if np.max(np.abs(divu)) > 1e-9 * (1 + max(np.max(np.abs(a)) if a.size else 0 for a in (u._xvalue, u._yvalue, u._zvalue))):
+            continue   # generator could not make it divergence-free (should not happen)
+        BC = pf.BoundaryConditions(mesh)
+        dvals = []
+        for ax in range(d):
+            radial = gen.AXKIND[cname][ax] == "rad"
+            comp = (u._xvalue, u._yvalue, u._zvalue)[ax]
+            lo_idx = tuple(0 if i == ax else slice(None) for i in range(d)); hi_idx = tuple(-1 if i == ax else slice(None) for i in range(d))
+            normal_flow = np.any(comp[lo_idx] != 0) or np.any(comp[hi_idx] != 0)
+            if normal_flow:
+                kinds = ["dirichlet"]
+            else:
+                kinds = ["dirichlet", "noflux"] + ([] if radial else ["periodic"])
+            kind = rng.choice(kinds)
+            if kind == "periodic":
+                dxs = np.diff(fs[ax])
+                if abs(dxs[0] - dxs[-1]) > 1e-14:
+                    kind = "noflux"
+            for s in SIDES[ax]:
+                f = getattr(BC, s)
+                if kind == "dirichlet":
+                    if radial and s == "left" and fs[0][0] == 0.0:
+                        continue   # the axis r = 0 is not a boundary: keep no-flux
+                    c = np.array([rng.uniform(0, 1) for _ in range(f.c.size)]).reshape(f.c.shape)
+                    f.a[:] = 0.0; f.b[:] = 1.0; f.c[:] = c; dvals += c.ravel().tolist()
+                elif kind == "periodic":
+                    f.periodic = True
+        contrast = 10.0 ** rng.uniform(0, 8)
+        Da = [np.where(np.array([rng.random() < 0.1 for _ in range(a.size)]).reshape(a.shape), 0.0,
+                       10.0 ** np.array([rng.uniform(-np.log10(contrast) / 2, np.log10(contrast) / 2) for _ in range(a.size)]).reshape(a.shape)) if a.size else a
+              for a in gen.face_arrays(rng, mesh)]
+        for ax in range(d):    # the two copies of a periodic face carry one diffusivity
+            if getattr(BC, SIDES[ax][0]).periodic:
+                lo_idx = tuple(0 if i == ax else slice(None) for i in range(d)); hi_idx = tuple(-1 if i == ax else slice(None) for i in range(d))
+                Da[ax][hi_idx] = Da[ax][lo_idx]
+        D = pf.FaceVariable(mesh, *Da)
+        sink = rng.random() < 0.4
+        beta = pf.CellVariable(mesh, (np.abs(gen.cell_array(rng, mesh))[interior_slices(d)] * (10.0 ** rng.uniform(-2, 2))) if sink else 0.0)
+        inner = np.array([rng.uniform(0, 1) for _ in range(int(np.prod(mesh.dims)))]).reshape(tuple(int(k) for k in mesh.dims))
+        if rng.random() < 0.3:
+            inner = (inner > 0.5).astype(float)
+        phi = pf.CellVariable(mesh, inner, BC)
+        L = lab(cname, fs, D=tuple(Da), u=(u._xvalue, u._yvalue, u._zvalue), phi_interior=inner, sink=sink)
+        L["bc"] = {s: {"a": np.asarray(getattr(BC, s).a).tolist(), "b": np.asarray(getattr(BC, s).b).tolist(), "c": np.asarray(getattr(BC, s).c).tolist(),
+                       "periodic": bool(getattr(BC, s).periodic)} for ax in range(d) for s in SIDES[ax]}
+        Md, Mu, Mb = pf.diffusionTerm(D), pf.convectionUpwindTerm(u), pf.linearSourceTerm(beta)
+        nsteps = 3 if ctx.tier == "quick" else 6
+        for step in range(nsteps):
+            dt = 10.0 ** rng.uniform(-4, 4)
+            old = np.array(phi.value)
+            lo_b = min([old.min()] + dvals + ([0.0] if sink else [])); hi_b = max([old.max()] + dvals + ([0.0] if sink else []))
+            spy = {}
+            def solver(M, R):
+                spy["M"], spy["R"] = M.copy(), R.copy(); return spsolve(M, R)
+            with np.errstate(all="ignore"):
+                pf.solvePDE(phi, [pf.transientTerm(phi, dt, 1.0), -Md, Mu, Mb], externalsolver=solver)
+            new = np.array(phi.value)
+            n += 1
+            if not np.all(np.isfinite(new)):
+                ctx.violation(f"c07:{cname}:nonfinite", f"{cname}: solvePDE returned non-finite values in a maximum-principle configuration (dt={dt:g})", dict(L, dt=dt, step=step)); break
+            rngw = hi_b - lo_b + 1e-300
+            over = max(new.max() - hi_b, lo_b - new.min())
+            if over > 1e-9 * (rngw + abs(hi_b) + abs(lo_b)):
+                confirmed = True; exact_over = None
+                if spy["M"].shape[0] <= 150:
+                    xs = exact_solve(spy["M"], spy["R"])
+                    if xs is not None:
+                        shape = full_shape(mesh)
+                        xe = np.array([float(v) for v in xs]).reshape(shape)[interior_slices(d)]
+                        exact_over = max(xe.max() - hi_b, lo_b - xe.min())
+                        confirmed = exact_over > 1e-12 * (rngw + abs(hi_b) + abs(lo_b))
+                elif over < 1e-6 * (rngw + abs(hi_b) + abs(lo_b)):
+                    confirmed = False    # within the rounding of an ill-conditioned system, too large to re-solve exactly
+                if confirmed:
+                    ctx.violation(f"c07:{cname}:overshoot", f"{cname}: implicit step leaves the range [{lo_b:.6g}, {hi_b:.6g}] of previous values and Dirichlet data by {over:.3g} (dt={dt:g}; exact re-solve: {exact_over})",
+                                  dict(L, dt=dt, step=step, old_interior=old, new_interior=new, overshoot=float(over)))
+                    break
+    return n
+
+
+# ------------------------------------------------------------------ C08
+def _run_problem(pf, mesh, BC, inner, Da, ua, be, nsteps, dts, tvd=True):
+    phi = pf.CellVariable(mesh, inner, BC)
+    D = pf.FaceVariable(mesh, *Da); u = pf.FaceVariable(mesh, *ua)
+    beta = pf.CellVariable(mesh, be)
+    FL = pf.fluxLimiter("Koren")
+    out = []
+    for k in range(nsteps):
+        terms = [pf.transientTerm(phi, dts[k], 1.0), -pf.diffusionTerm(D), pf.convectionUpwindTerm(u), pf.linearSourceTerm(beta)]
+        if tvd:
+            terms.append(pf.convectionTVDupwindRHSTerm(u, phi, FL))
+        pf.solvePDE(phi, terms)
+        out.append(np.array(phi._value))
+    return out
+
+
+def _set_bc(rng, BC, side, kind, shape_like=None, vals=None):
+    f = getattr(BC, side)
+    if kind == "dirichlet":
+        f.a[:] = 0.0; f.b[:] = 1.0; f.c[:] = vals if vals is not None else 1.0
+    elif kind == "robin":
+        f.a[:] = (1.0 if side in ("right", "top", "front") else -1.0); f.b[:] = 2.0; f.c[:] = vals if vals is not None else 1.0
+    elif kind == "periodic":
+        f.periodic = True
+
+
+def probe_c08(ctx, pf):
+    n = 0
+    rng = random.Random(f"c08-{ctx.seed}")
+    reps = 4 if ctx.tier == "quick" else 25
+    # (1) extrusion: (high class, low class, kept axes of the high class)
+    pairs = [("Grid2D", "Grid1D", [0]), ("Grid3D", "Grid2D", [0, 1]), ("Grid3D", "Grid1D", [0]), ("CylindricalGrid3D", "CylindricalGrid2D", [0, 2]),
+             ("PolarGrid2D", "CylindricalGrid1D", [0]), ("CylindricalGrid2D", "CylindricalGrid1D", [0]), ("CylindricalGrid3D", "CylindricalGrid1D", [0])]
+    for hi_c, lo_c, keep in pairs:
+        for rep in range(reps):
+            dh = gen.DIM[hi_c]
+            fs_hi = gen.mesh_case(rng, hi_c, nmax=3, nmin=2)
+            fs_lo = [fs_hi[a] for a in keep]
+            mh = gen.build_mesh(pf, hi_c, fs_hi); ml = gen.build_mesh(pf, lo_c, fs_lo)
+            # low-dimensional data
+            inner_lo = gen.cell_array(rng, ml)[interior_slices(len(keep))]
+            Da_lo = [np.abs(a) + 0.1 for a in gen.face_arrays(rng, ml)][:len(keep)]; ua_lo = list(gen.face_arrays(rng, ml))[:len(keep)]
+            be_lo = np.abs(gen.cell_array(rng, ml))[interior_slices(len(keep))]
+            kinds = {a: (rng.choice(["dirichlet", "robin", "noflux"]), rng.choice(["dirichlet", "robin", "noflux"])) for a in keep}
+            cvals = {a: (rng.uniform(0, 2), rng.uniform(0, 2)) for a in keep}
+            BCl = pf.BoundaryConditions(ml); BCh = pf.BoundaryConditions(mh)
+            for j, a in enumerate(keep):
+                for s in range(2):
+                    _set_bc(rng, BCl, SIDES[j][s], kinds[a][s], vals=cvals[a][s])
+                    _set_bc(rng, BCh, SIDES[a][s], kinds[a][s], vals=cvals[a][s])
+            dropped = [a for a in range(dh) if a not in keep]
+            per_dropped = {a: (gen.AXKIND[hi_c][a] != "rad" and rng.random() < 0.5) for a in dropped}
+            for a in dropped:
+                if per_dropped[a]:
+                    getattr(BCh, SIDES[a][0]).periodic = True; getattr(BCh, SIDES[a][1]).periodic = True
+            dims_h = [int(k) for k in mh.dims]
+            def extrude_cell(arr):
+                sh = [1] * dh
+                for j, a in enumerate(keep): sh[a] = arr.shape[j]
+                return np.broadcast_to(arr.reshape(sh), dims_h).copy()
+            def extrude_face(arrs, other_vals):
+                out = []
+                for a in range(dh):
+                    shape = [dims_h[i] + (1 if i == a else 0) for i in range(dh)]
+                    if a in keep:
+                        j = keep.index(a); src = arrs[j]
+                        sh = [1] * dh
+                        for jj, aa in enumerate(keep): sh[aa] = src.shape[jj]
+                        out.append(np.broadcast_to(src.reshape(sh), shape).copy())
+                    else:
+                        out.append(np.full(shape, other_vals))
+                while len(out) < 3: out.append(np.array([]))
+                return out
+            Da_hi = extrude_face(Da_lo, 0.7); ua_hi = extrude_face(ua_lo, 0.0)
+            dts = [10.0 ** rng.uniform(-2, 1) for _ in range(2)]
+            L = {"pair": [hi_c, lo_c], "faces_high": [list(map(float, f)) for f in fs_hi], "kept_axes": keep, "phi_low": inner_lo.tolist(),
+                 "D_low": [a.tolist() for a in Da_lo], "u_low": [a.tolist() for a in ua_lo], "bc_kinds": {str(k): v for k, v in kinds.items()}, "dts": dts}
+            try:
+                with np.errstate(all="ignore"):
+                    Dl = Da_lo + [np.array([])] * (3 - len(Da_lo)); ul = ua_lo + [np.array([])] * (3 - len(ua_lo))
+                    rl = _run_problem(pf, ml, BCl, inner_lo, Dl, ul, be_lo, 2, dts)
+                    rh = _run_problem(pf, mh, BCh, extrude_cell(inner_lo), Da_hi, ua_hi, extrude_cell(be_lo), 2, dts)
+            except Exception as ex:
+                ctx.violation(f"c08:{hi_c}->{lo_c}:raise", f"{hi_c}->{lo_c}: {type(ex).__name__}: {ex}", L); continue
+            n += 1
+            lo_int = rl[-1][interior_slices(len(keep))]; hi_int = rh[-1][interior_slices(dh)]
+            if not np.all(np.isfinite(lo_int)) or np.max(np.abs(lo_int)) > 1e6:
+                continue
+            e = rel(hi_int, extrude_cell(lo_int))
+            if e > 1e-8:
+                ctx.violation(f"c08:{hi_c}->{lo_c}", f"{hi_c} with data invariant along the dropped axes differs from {lo_c} (rel {e:.3g})", L)
+    # (2) Cartesian permutation / mirror / periodic shift
+    for rep in range(reps):
+        for cname in ("Grid2D", "Grid3D"):
+            d = gen.DIM[cname]
+            fs = gen.mesh_case(rng, cname, nmax=3, nmin=2)
+            mesh = gen.build_mesh(pf, cname, fs)
+            inner = gen.cell_array(rng, mesh)[interior_slices(d)]
+            Da = [np.abs(a) + 0.1 if a.size else a for a in gen.face_arrays(rng, mesh)]; ua = list(gen.face_arrays(rng, mesh))
+            be = np.abs(gen.cell_array(rng, mesh))[interior_slices(d)]
+            kinds = {a: (rng.choice(["dirichlet", "robin", "noflux"]), rng.choice(["dirichlet", "robin", "noflux"])) for a in range(d)}
+            cvals = {a: (rng.uniform(0, 2), rng.uniform(0, 2)) for a in range(d)}
+            def mkbc(m_, axes_map, mirror_ax=None):
+                BC = pf.BoundaryConditions(m_)
+                for newa in range(d):
+                    olda = axes_map[newa]
+                    for s in range(2):
+                        src_s = (1 - s) if olda == mirror_ax else s
+                        f = getattr(BC, SIDES[newa][s]); k = kinds[olda][src_s]
+                        _set_bc(rng, BC, SIDES[newa][s], k, vals=cvals[olda][src_s])
+                        if k == "robin":
+                            f.a[:] = 1.0 if s == 1 else -1.0
+                return BC
+            dts = [10.0 ** rng.uniform(-2, 1) for _ in range(2)]
+            L = lab(cname, fs, phi_interior=inner, D=tuple(Da), u=tuple(ua), bc_kinds={str(k): v for k, v in kinds.items()})
+            with np.errstate(all="ignore"):
+                base = _run_problem(pf, mesh, mkbc(mesh, list(range(d))), inner, Da, ua, be, 2, dts)[-1][interior_slices(d)]
+                # permutation
+                perm = list(range(d)); rng.shuffle(perm)
+                m2 = gen.build_mesh(pf, cname, [fs[p] for p in perm])
+                Dp = [np.transpose(Da[p], perm) for p in perm] + [np.array([])] * (3 - d)
+                up = [np.transpose(ua[p], perm) for p in perm] + [np.array([])] * (3 - d)
+                rp = _run_problem(pf, m2, mkbc(m2, perm), np.transpose(inner, perm), Dp, up, np.transpose(be, perm), 2, dts)[-1][interior_slices(d)]
+                n += 1
+                if np.all(np.isfinite(base)) and rel(rp, np.transpose(base, perm)) > 1e-8:
+                    ctx.violation(f"c08:{cname}:permute", f"{cname}: permuting the axes {perm} does not permute the solution", dict(L, perm=perm))
+                # mirror axis 0 (x -> -x): faces reversed and negated, u_x reversed in sign
+                ax = rng.randrange(d)
+                fm = [np.asarray(f) for f in fs]; fm[ax] = -fm[ax][::-1]
+                m3 = gen.build_mesh(pf, cname, fm)
+                flip = lambda arr: np.flip(arr, axis=ax)
+                Dm = [flip(a) if a.size else a for a in Da]; um = [flip(a) if a.size else a for a in ua]; um[ax] = -um[ax]
+                rm = _run_problem(pf, m3, mkbc(m3, list(range(d)), mirror_ax=ax), flip(inner), Dm, um, flip(be), 2, dts)[-1][interior_slices(d)]
+                n += 1
+                if np.all(np.isfinite(base)) and rel(rm, flip(base)) > 1e-8:
+                    ctx.violation(f"c08:{cname}:mirror", f"{cname}: mirroring axis {ax} (velocity component reversed) does not mirror the solution", dict(L, axis=ax))
+            # periodic shift along a uniform axis
+            ax = rng.randrange(d)
+            N = rng.randint(3, 5)
+            fu = [np.asarray(f) for f in fs]; fu[ax] = np.linspace(0.0, 1.0, N + 1)
+            m4 = gen.build_mesh(pf, cname, fu)
+            inner4 = gen.cell_array(rng, m4)[interior_slices(d)]
+            D4 = [np.abs(a) + 0.1 if a.size else a for a in gen.face_arrays(rng, m4)]; u4 = list(gen.face_arrays(rng, m4))
+            lo_idx = tuple(0 if i == ax else slice(None) for i in range(d)); hi_idx = tuple(-1 if i == ax else slice(None) for i in range(d))
+            D4[ax][hi_idx] = D4[ax][lo_idx]
+            uc4 = [a.copy() for a in u4]; uc4[ax][hi_idx] = uc4[ax][lo_idx]     # central scheme: flow through the periodic face allowed
+            u4[ax][...] = 0.0       # upwind / TVD: no flow along the periodic axis (see known finding c01:upwind_periodic)
+            be4 = np.abs(gen.cell_array(rng, m4))[interior_slices(d)]
+            def bc4():
+                BC = mkbc(m4, list(range(d)))
+                for s in SIDES[ax]:
+                    getattr(BC, s).defaultNoFlux(); getattr(BC, s).periodic = True
+                for a in range(d):
+                    if a != ax:
+                        for s in SIDES[a]:
+                            f = getattr(BC, s); f.c[:] = float(np.asarray(f.c).ravel()[0])
+                return BC
+            sh = rng.randint(1, N - 1)
+            def roll_cell(a): return np.roll(a, sh, axis=ax)
+            def roll_face(a, comp):
+                if comp != ax: return np.roll(a, sh, axis=ax)
+                core = a[tuple(slice(0, -1) if i == ax else slice(None) for i in range(d))]
+                core = np.roll(core, sh, axis=ax)
+                return np.concatenate([core, core[tuple(slice(0, 1) if i == ax else slice(None) for i in range(d))]], axis=ax)
+            with np.errstate(all="ignore"):
+                b0 = _run_problem(pf, m4, bc4(), inner4, D4, u4, be4, 2, dts, tvd=True)[-1][interior_slices(d)]
+                Dr = [roll_face(a, i) if a.size else a for i, a in enumerate(D4)]; ur = [roll_face(a, i) if a.size else a for i, a in enumerate(u4)]
+                b1 = _run_problem(pf, m4, bc4(), roll_cell(inner4), Dr, ur, roll_cell(be4), 2, dts, tvd=True)[-1][interior_slices(d)]
+                def central(inner_, D_, u_, be_):
+                    phi = pf.CellVariable(m4, inner_, bc4()); Dv = pf.FaceVariable(m4, *D_); uv = pf.FaceVariable(m4, *u_)
+                    for k in range(2):
+                        pf.solvePDE(phi, [pf.transientTerm(phi, dts[k], 1.0), -pf.diffusionTerm(Dv), pf.convectionTerm(uv), pf.linearSourceTerm(pf.CellVariable(m4, be_))])
+                    return np.array(phi.value)
+                c0 = central(inner4, D4, uc4, be4)
+                c1 = central(roll_cell(inner4), Dr, [roll_face(a, i) if a.size else a for i, a in enumerate(uc4)], roll_cell(be4))
+            n += 1
+            if np.all(np.isfinite(c0)) and np.max(np.abs(c0)) < 1e6 and rel(c1, roll_cell(c0)) > 1e-8:
+                ctx.violation(f"c08:{cname}:shift-central", f"{cname}: cyclic shift along periodic uniform axis {ax} by {sh} does not shift the solution (diffusion + central advection)",
+                              dict(lab(cname, fu), axis=ax, shift=sh))
+            n += 1
+            if np.all(np.isfinite(b0)) and rel(b1, roll_cell(b0)) > 1e-8:
+                ctx.violation(f"c08:{cname}:shift", f"{cname}: cyclically shifting the data along periodic uniform axis {ax} by {sh} does not shift the solution",
+                              dict(lab(cname, fu), axis=ax, shift=sh))
+    # known finding: upwind / TVD advection along a periodic axis is not shift-invariant (boundary-face treatment, cf. c01:upwind_periodic)
+    m1 = pf.Grid1D(np.linspace(0.0, 1.0, 5))
+    def per_solve(vals):
+        BC = pf.BoundaryConditions(m1); BC.left.periodic = True; BC.right.periodic = True
+        phi = pf.CellVariable(m1, np.array(vals), BC)
+        pf.solvePDE(phi, [pf.transientTerm(phi, 0.1, 1.0), pf.convectionUpwindTerm(pf.FaceVariable(m1, 1.0))])
+        return np.array(phi.value)
+    v0 = [1.0, 2.0, 4.0, 8.0]
+    a0 = per_solve(v0); a1 = per_solve(np.roll(v0, 1))
+    n += 1
+    if rel(a1, np.roll(a0, 1)) > 1e-8:
+        ctx.violation("c08:upwind_periodic_shift", "upwind advection along a periodic axis is not invariant under cyclic shifts of the data",
+                      {"cls": "Grid1D", "faces": [[0, 0.25, 0.5, 0.75, 1.0]], "u": 1.0, "phi_interior": v0, "shift": 1, "dt": 0.1})
+    return n
+
+
+# ------------------------------------------------------------------ C02: manufactured solutions
+F1 = {"len": (lambda t: np.cos(0.7 * t) + 0.3 * t + 1.5, lambda t: -0.7 * np.sin(0.7 * t) + 0.3),
+      "rad": (lambda t: 1 + t ** 2 / 3 + np.sin(t) / 2 + 1.5, lambda t: 2 * t / 3 + np.cos(t) / 2),
+      "ang": (lambda t: np.cos(t) + 0.5 * np.sin(2 * t) + 1.5, lambda t: -np.sin(t) + np.cos(2 * t)),
+      "pol": (lambda t: np.cos(t) + 0.2 * t + 1.5, lambda t: -np.sin(t) + 0.2)}
+
+
+def _mms_setup(cname):
+    """exact solution phi = prod_a f_a(x_a), D = 1 + 0.3*sum sin(0.5 x_a + 0.1), u = first-axis component only and divergence-free,
+    beta = 0.8; gamma = div(u phi) - div(D grad phi) + beta phi in the coordinate system of the class (Lame coefficients h_a,
+    Jacobian J); the outer derivative of each flux J/h_a * (..) is taken numerically (5-point stencil, step 1e-4: error ~1e-12)"""
+    d = gen.DIM[cname]
+    kind = gen.AXKIND[cname]
+    def hs(X):
+        one = np.ones_like(X[0])
+        if cname in ("PolarGrid2D",): return [one, X[0]]
+        if cname == "CylindricalGrid3D": return [one, X[0], one]
+        if cname == "SphericalGrid3D": return [one, X[0], X[0] * np.sin(X[1])]
+        return [one] * d
+    def J(X):
+        if cname.startswith("Grid"): return np.ones_like(X[0])
+        if cname in ("CylindricalGrid1D", "CylindricalGrid2D", "PolarGrid2D", "CylindricalGrid3D"): return X[0]
+        if cname == "SphericalGrid1D": return X[0] ** 2
+        return X[0] ** 2 * np.sin(X[1])
+    def phi(*X):
+        out = 1.0
+        for a in range(d): out = out * F1[kind[a]][0](X[a])
+        return out
+    def dphi(a, X):
+        out = 1.0
+        for b in range(d): out = out * (F1[kind[b]][1](X[b]) if b == a else F1[kind[b]][0](X[b]))
+        return out
+    def D(*X):
+        return 1 + 0.3 * sum(np.sin(0.5 * t + 0.1) for t in X)
+    def u1(*X):
+        if kind[0] == "rad":
+            return 0.6 / (X[0] if ("Cyl" in cname or "Polar" in cname) else X[0] ** 2)
+        return 0.6 * np.ones_like(X[0])
+    def grad(a):
+        return lambda *X: dphi(a, list(X)) / hs(list(X))[a]
+    def flux(a, X):
+        """J/h_a * (u_a phi - D * (1/h_a) dphi/dx_a)"""
+        X = list(X)
+        adv = u1(*X) * phi(*X) if a == 0 else 0.0
+        return J(X) / hs(X)[a] * (adv - D(*X) * dphi(a, X) / hs(X)[a])
+    def gamma(*X):
+        X = [np.asarray(t, dtype=float) for t in X]
+        e = 1e-4
+        tot = 0.0
+        for a in range(d):
+            def sh(k):
+                Y = list(X); Y[a] = X[a] + k * e; return flux(a, Y)
+            tot = tot + (-sh(2) + 8 * sh(1) - 8 * sh(-1) + sh(-2)) / (12 * e)
+        return tot / J(X) + 0.8 * phi(*X)
+    return {"d": d, "phi": phi, "D": D, "u1": u1, "gamma": gamma, "beta": 0.8, "grad": [grad(a) for a in range(d)]}
+
+
+_MMS_CACHE = {}
+
+
+def _mms_solve(pf, cname, N, setup, scheme, bc_kind, graded):
+    d = setup["d"]
+    kind = gen.AXKIND[cname]
+    fs = []
+    for a in range(d):
+        lo, hi = {"len": (0.0, 1.0), "rad": (1.0, 2.0), "ang": (0.3, 1.3), "pol": (0.6, 1.6)}[kind[a]]
+        t = np.linspace(0.0, 1.0, N + 1)
+        if graded:
+            t = t + 0.15 * np.sin(np.pi * t) ** 2 * (1 - t) * t * 2     # smooth grading
+        fs.append(lo + (hi - lo) * t)
+    mesh = gen.build_mesh(pf, cname, fs)
+    cc = [mesh.cellcenters._x, mesh.cellcenters._y, mesh.cellcenters._z][:d]
+    fc = [mesh.facecenters._x, mesh.facecenters._y, mesh.facecenters._z][:d]
+    G = np.meshgrid(*cc, indexing="ij")
+    BC = pf.BoundaryConditions(mesh)
+    for a in range(d):
+        others = [cc[i] for i in range(d) if i != a]
+        for s, side in enumerate(SIDES[a]):
+            pos = fc[a][-1] if s == 1 else fc[a][0]
+            coords = []
+            og = np.meshgrid(*others, indexing="ij") if others else []
+            k = 0
+            for i in range(d):
+                if i == a:
+                    coords.append(np.full(og[0].shape if og else (1,), pos))
+                else:
+                    coords.append(og[k]); k += 1
+            f = getattr(BC, side)
+            val = setup["phi"](*coords); dn = setup["grad"][a](*coords)
+            if bc_kind == "dirichlet":
+                f.a[:] = 0.0; f.b[:] = 1.0; f.c[:] = np.reshape(val, f.c.shape)
+            else:   # Robin: a*dphi/dn + b*phi = c along the positive coordinate direction
+                f.a[:] = 1.0 if s == 1 else -1.0; f.b[:] = 2.0
+                f.c[:] = np.reshape((1.0 if s == 1 else -1.0) * dn + 2.0 * val, f.c.shape)
+    # face coefficient fields at face centres
+    Df, uf = [], []
+    for a in range(d):
+        coords = np.meshgrid(*[fc[i] if i == a else cc[i] for i in range(d)], indexing="ij")
+        Df.append(setup["D"](*coords) * np.ones(coords[0].shape))
+        uf.append((setup["u1"](*coords) * np.ones(coords[0].shape)) if a == 0 else np.zeros(coords[0].shape))
+    while len(Df) < 3: Df.append(np.array([])); uf.append(np.array([]))
+    D = pf.FaceVariable(mesh, *Df); u = pf.FaceVariable(mesh, *uf)
+    gam = pf.CellVariable(mesh, setup["gamma"](*G) * np.ones(G[0].shape))
+    beta = pf.CellVariable(mesh, setup["beta"])
+    phi = pf.CellVariable(mesh, 0.0, BC)
+    conv = pf.convectionTerm(u) if scheme == "central" else pf.convectionUpwindTerm(u)
+    pf.solvePDE(phi, [-pf.diffusionTerm(D), conv, pf.linearSourceTerm(beta), pf.constantSourceTerm(gam)])
+    exact = setup["phi"](*G)
+    return float(np.max(np.abs(np.asarray(phi.value) - exact)) / np.max(np.abs(exact)))
+
+
+def probe_c02(ctx, pf):
+    n = 0
+    Ns = {1: (8, 16, 32), 2: (6, 12, 24), 3: (4, 8, 12)}
+    for cname in gen.CLASSES:
+        if cname not in _MMS_CACHE:
+            _MMS_CACHE[cname] = _mms_setup(cname)
+        setup = _MMS_CACHE[cname]
+        d = setup["d"]
+        variants = [("central", "dirichlet", False), ("central", "robin", True), ("upwind", "dirichlet", True)]
+        if ctx.tier != "quick":
+            variants += [("central", "dirichlet", True), ("central", "robin", False), ("upwind", "robin", False)]
+        for scheme, bck, graded in variants:
+            try:
+                with np.errstate(all="ignore"):
+                    errs = [_mms_solve(pf, cname, N, setup, scheme, bck, graded) for N in Ns[d]]
+            except Exception as ex:
+                ctx.violation(f"c02:{cname}:raise", f"{cname}: manufactured-solution run raised {type(ex).__name__}: {ex}", {"cls": cname, "scheme": scheme, "bc": bck}); continue
+            n += 1
+            ratio = np.log(errs[0] / errs[-1]) / np.log(Ns[d][-1] / Ns[d][0]) if errs[-1] > 0 else 9.0
+            need = 1.4 if scheme == "central" else 0.6
+            L = {"cls": cname, "scheme": scheme, "bc": bck, "graded": graded, "N": list(Ns[d]), "max_rel_errors": errs, "observed_order": float(ratio)}
+            if not np.all(np.isfinite(errs)) or ratio < need or errs[-1] > 0.05:
+                ctx.violation(f"c02:{cname}:{scheme}:{bck}:{'graded' if graded else 'uniform'}",
+                              f"{cname}: error against the manufactured exact solution does not decrease at the order of the scheme ({scheme}, {bck}, {'graded' if graded else 'uniform'}): errors {['%.3g' % e for e in errs]}, observed order {ratio:.2f}", L)
+    return n
